@@ -749,4 +749,128 @@ theorem emod_small_negative (y s : Int) : (0 < s ∧ 0 - s < y ∧ y < 0) → y 
   rw [← Int.add_emod_right y s]
   exact Int.emod_eq_of_lt (by omega) (by omega)
 
+/-! ## row-at-a-time laws (generator bodies of the RowIterable classes) -/
+
+theorem snoc_len_cols (X : RS) (r : Row) :
+    rlen (rsnoc X r) = rlen X + 1 ∧ rcols (rsnoc X r) = rcols X := by
+  simp [rlen, rcols, rsnoc]
+
+theorem prefix_zero (X : RS) : rprefix X 0 = RelAlg.empty (rcols X) := by
+  simp [rprefix, RelAlg.empty, rcols]
+
+theorem prefix_full (X : RS) : rprefix X (rlen X) = X := by
+  cases X; simp [rprefix, rlen]
+
+theorem prefix_len_cols (X : RS) (i : Int) :
+    (0 ≤ i ∧ i ≤ rlen X) → rlen (rprefix X i) = i ∧ rcols (rprefix X i) = rcols X := by
+  rintro ⟨h0, h1⟩
+  refine ⟨?_, rfl⟩
+  simp only [rlen] at h1
+  simp only [rlen, rprefix, List.length_take]
+  omega
+
+theorem prefix_step (X : RS) (i : Int) :
+    (0 ≤ i ∧ i < rlen X) → rprefix X (i + 1) = rsnoc (rprefix X i) (rnth X i) := by
+  rintro ⟨h0, h1⟩
+  obtain ⟨n, rfl⟩ := Int.eq_ofNat_of_zero_le h0
+  simp only [rlen] at h1
+  have hn : n < X.rows.length := by exact_mod_cast h1
+  have e1 : ((n : Int) + 1).toNat = n + 1 := by omega
+  simp only [rprefix, rsnoc, rnth, e1, Int.toNat_natCast]
+  congr 1
+  rw [List.take_succ_eq_append_getElem hn]
+  simp [List.getD_eq_getElem?_getD, List.getElem?_eq_getElem hn]
+
+theorem mapc_snoc (t : Tag) (cl : Callable) (X : RS) (r : Row) :
+    mapc t cl (rsnoc X r) = rsnoc (mapc t cl X) (rmask (insert t (rcols X)) (rput r t (capp cl r))) := by
+  simp [mapc, calcF, rsnoc, rmask, rput, capp, rcols]
+
+theorem mapc_empty (t : Tag) (cl : Callable) (C : TagSet) :
+    mapc t cl (RelAlg.empty C) = RelAlg.empty (insert t C) := by
+  simp [mapc, calcF, RelAlg.empty]
+
+theorem filterc_snoc (cl : Callable) (X : RS) (r : Row) :
+    filterc cl (rsnoc X r) = if capp cl r ≠ 0 then rsnoc (filterc cl X) r else filterc cl X := by
+  by_cases h : cl.fn r ≠ 0 <;> simp [filterc, filterF, rsnoc, capp, List.filter_append, h]
+
+theorem filterc_empty (cl : Callable) (C : TagSet) :
+    filterc cl (RelAlg.empty C) = RelAlg.empty C := by
+  simp [filterc, filterF, RelAlg.empty]
+
+theorem proj_snoc (P : TagSet) (X : RS) (r : Row) :
+    proj P (rsnoc X r) = rsnoc (proj P X) (rmask P r) := by
+  simp [proj, rsnoc, rmask]
+
+theorem proj_empty (P C : TagSet) : proj P (RelAlg.empty C) = RelAlg.empty P := by
+  simp [proj, RelAlg.empty]
+
+theorem slice_empty (a : Int) (b : OptInt) (C : TagSet) :
+    slice a b (RelAlg.empty C) = RelAlg.empty C := by
+  unfold slice RelAlg.empty
+  split
+  · rfl
+  · cases b <;> simp
+
+theorem slice_snoc (a : Int) (b : OptInt) (X : RS) (r : Row) :
+    (0 ≤ a ∧ (isNone b ∨ 0 ≤ val b)) →
+    slice a b (rsnoc X r) =
+      if a ≤ rlen X ∧ (isNone b ∨ rlen X < val b) then rsnoc (slice a b X) r else slice a b X := by
+  rintro ⟨ha, hb⟩
+  obtain ⟨n, rfl⟩ := Int.eq_ofNat_of_zero_le ha
+  cases b with
+  | none =>
+    have hneg : ¬ ((n : Int) < 0 ∨ ∃ v, (none : OptInt) = some v ∧ v < 0) := by simp
+    simp only [slice, hneg, if_false, rsnoc, rlen, isNone, true_or, and_true]
+    by_cases h : n ≤ X.rows.length
+    · have h' : (n : Int) ≤ (X.rows.length : Int) := by exact_mod_cast h
+      simp [h', List.drop_append_of_le_length h]
+    · have h' : ¬ (n : Int) ≤ (X.rows.length : Int) := by exact_mod_cast h
+      have h2 : X.rows.length < n := Nat.lt_of_not_le h
+      simp [h']
+      rw [List.drop_eq_nil_of_le (by simp; omega), List.drop_eq_nil_of_le (by omega)]
+  | some v =>
+    have hv : 0 ≤ v := by
+      rcases hb with hb | hb
+      · simp [isNone] at hb
+      · simpa [val] using hb
+    obtain ⟨m, rfl⟩ := Int.eq_ofNat_of_zero_le hv
+    have hneg : ¬ ((n : Int) < 0 ∨ ∃ w, (some (m : Int) : OptInt) = some w ∧ w < 0) := by
+      simp
+    simp only [slice, hneg, if_false, rsnoc, rlen, isNone, val, Option.getD_some, Int.toNat_natCast]
+    simp only [reduceCtorEq, false_or, Int.ofNat_le, Int.ofNat_lt]
+    by_cases h1 : X.rows.length < m
+    · -- the new row is inside the take window
+      have e1 : (X.rows ++ [r]).take m = X.rows ++ [r] := by
+        apply List.take_of_length_le; simp; omega
+      have e2 : X.rows.take m = X.rows := List.take_of_length_le (by omega)
+      rw [e1, e2]
+      by_cases h : n ≤ X.rows.length
+      · simp [h, h1, List.drop_append_of_le_length h]
+      · have h2 : X.rows.length < n := Nat.lt_of_not_le h
+        simp [h]
+        rw [List.drop_eq_nil_of_le (by simp; omega), List.drop_eq_nil_of_le (by omega)]
+    · have h1' : m ≤ X.rows.length := Nat.le_of_not_lt h1
+      have e1 : (X.rows ++ [r]).take m = X.rows.take m := List.take_append_of_le_length h1'
+      simp [h1, e1]
+
+theorem slice_prefix (a : Int) (b : OptInt) (X : RS) :
+    (0 ≤ a ∧ ¬ isNone b ∧ 0 ≤ val b ∧ val b ≤ rlen X) →
+    slice a b (rprefix X (val b)) = slice a b X := by
+  rintro ⟨ha, hb, hv, hl⟩
+  cases b with
+  | none => simp [isNone] at hb
+  | some v =>
+    simp only [val, Option.getD_some] at hv hl ⊢
+    have hneg : ¬ (a < 0 ∨ v < 0) := by omega
+    simp [slice, hneg, rprefix, List.take_take]
+
+theorem dedup_key_idem (K : TagSet) (X : RS) : dedup_key K (dedup_key K X) = dedup_key K X := by
+  simp [dedup_key, dedupKeyRows_idem]
+
+theorem dedup_key_empty (K C : TagSet) : dedup_key K (RelAlg.empty C) = RelAlg.empty C := by
+  simp [dedup_key, dedupKeyRows, RelAlg.empty]
+
+theorem dedup_key_unit (K : TagSet) : dedup_key K RelAlg.unit = RelAlg.unit := by
+  simp [dedup_key, dedupKeyRows, RelAlg.unit, dictSet]
+
 end RelAlg.Laws
